@@ -4,7 +4,7 @@ From Coq Require Import List Arith NArith Bool Lia Sorting.Sorted.
 Import ListNotations.
 Require Import MayV.Rt.TimerThread MayV.Rt.TimerThreadInv MayV.Rt.TimerThreadTac MayV.Rt.TimerThreadPresB
   MayV.Rt.TimerThreadPresH MayV.Rt.TimerThreadPresC MayV.Rt.TimerThreadPresW.
-Open Scope N_scope.
+Local Open Scope N_scope.
 
 (* an unpark for the timer thread is in flight on behalf of list L: somebody holds the handle and is about to
    unpark, or the handle is still in the slot and the adder that pushed the head of L is about to take it *)
